@@ -176,6 +176,25 @@ for _op in ["free_mini_chain", "free_mini_after", "extend_mini", "extend_chain"]
 harness("mini_next_total", props=["C11", "C05", "C04"], timeout=600, mem=6, stubs=[FMT],
         what="MiniAllocator::next_mini_sector(id) for ANY u32 id over ANY four MiniFAT cells: never panics, Ok only for in-range ids with a valid successor and then equal to the cell, otherwise an error",
         bounds="MiniFAT of 4 fully symbolic u32 cells, id: all u32", functions=["MiniAllocator::next_mini_sector"], assumes=[])
+# ---------------------------------------------------------------- C11: entries whose (start sector, length) disagree with their chain (h_incons.rs)
+_INCONS = [("eoc100_write0", "quick"), ("eoc100_write_at_len", "thorough"), ("eoc100_resize50", "quick"), ("eoc100_resize200", "thorough"), ("eoc100_resize0", "thorough"),
+           ("eoc100_read", "thorough"), ("eoc5000_write0", "thorough"), ("eoc5000_resize100", "thorough"),
+           ("short300_write_in", "thorough"), ("short300_write_beyond", "quick"), ("short300_write_at_len", "thorough"), ("short300_resize100", "thorough"),
+           ("short300_resize320", "thorough"), ("short300_resize0", "thorough"), ("short300_read_beyond", "thorough"),
+           ("reg_in_mini_write", "thorough"), ("reg_in_mini_resize100", "thorough"), ("reg_in_mini_resize0", "quick"), ("reg_in_mini_read", "thorough"),
+           ("zero_chain_write", "thorough"), ("zero_chain_resize100", "thorough")]
+for (_n, _t) in _INCONS:
+    harness("c11_incons_" + _n, props=["C11"], tier=_t, timeout=1800, mem=8, stubs=[FMT, STUB_COPY],
+            what="read_data_from_stream / write_data_to_stream / resize_stream on a stream entry whose start sector and length disagree with the chains (class and operation in the name: a length without a chain, a length beyond the chain, a 'regular' length over a mini start, a chain without a length): the call returns Ok or Err - no failed debug assertion, no overflow, no index panic, terminates; a length with no chain behind it is refused",
+            bounds="4-sector v3 image, MiniFAT [1, EOC, EOC]; entry class, offset and size concrete per instance; data symbolic", functions=STOR_F + MINI_F, assumes=[A_SHAPE, A_IOCOPY])
+for (_n, _t) in [("c11_resize_u64max", "quick"), ("c11_resize_u64max_m100", "thorough"), ("c11_resize_u64max_m511", "thorough"), ("c11_write_data_overflow", "quick")]:
+    harness(_n, props=["C11", "C06"], tier=_t, timeout=1800, mem=8, stubs=[FMT, STUB_COPY],
+            what="resize_stream / write_data_to_stream on a VALID small stream with a new length / end offset next to u64::MAX: refused with an error instead of overflowing in Chain::set_len or in the length arithmetic",
+            bounds="the listed extreme values; 4-sector v3 image", functions=STOR_F + ["Chain::set_len", "MiniChain::set_len"], assumes=[A_SHAPE, A_IOCOPY])
+harness("c11_write_total", props=["C11", "C06", "C10"], panic_props=["C11", "C06"], timeout=900, mem=6,
+        what="Stream::write of 1..4 bytes from an ARBITRARY cache state: returns; Ok(k) => 1<=k<=n, position advanced by k, length = max(old, new position); position + n beyond u64::MAX => refused with InvalidInput and the handle unchanged; no arithmetic overflow",
+        bounds="all u64 total_len / window offset, all cursor <= filled <= 1024 of a buffer at its maximum size, n in 1..4", functions=["<Stream<F> as Write>::write", "StreamBuffer::write_bytes", "Stream::current_position", "Stream::mark_modified"],
+        assumes=["cache representation invariant: cursor <= filled <= buffer len, window inside [0,total_len]; clean buffer (no flusher)"])
 harness("open_bogus_minifat_then_write", props=["C11", "C05"], tier="thorough", timeout=7200, mem=16, fs=8192, stubs=[FMT, STUB_COPY, STUB_UP],
         what="for EVERY value of the header's first-MiniFAT-sector field on a file with an empty mini stream: if permissive open accepts the file, writing a small stream afterwards returns Ok or Err without panicking or looping",
         bounds="first_minifat_sector: all u32; 6-sector image", functions=OPEN_F + STOR_F + MINI_F, assumes=[A_SHAPE, A_IOCOPY])
@@ -360,7 +379,7 @@ QUICK.update({
            ["dirent_parse_stream_v3", "dirent_parse_root_v3", "stor_read_cross", "alloc_validate_rel"],
     "C05": ["alloc_next_total", "chain_new_total", "alloc_validate_rel", "dirent_parse_storage_v3", "dirent_parse_badtype_v3",
             "dirent_parse_stream_v3"],
-    "C06": ["c06_seek_total", "stor_read_clip"] + _CQ,
+    "C06": ["c06_seek_total", "c11_write_total", "c11_resize_u64max", "stor_read_clip"] + _CQ,
     "C07": _RM + _INS[:1] + ["alloc_free_chain3", "stor_write_mid", "big_4096_to_100", "big_remove_4096", "api_setters"],
     "C08": ["alloc_begin_free13", "alloc_extend_free3", "stor_resize_in_sector", "stor_resize_reuse", "big_grow_100_to_4200"],
     "C09": ["c09_cmp_ascii_1_2", "c09_cmp_ascii_2_2", "c09_cmp_sigma_1_2", "c09_cmp_sigma_2_2", "api_invalid_names",
@@ -368,7 +387,9 @@ QUICK.update({
     "C10": ["c06_seek_total", "api_invalid_names", "api_ref_new_stream_exists", "api_ref_parent_is_stream",
             "api_ref_remove_stream_on_storage", "api_ref_storage_on_stream", "api_ref_escape_root", "api_ref_clsid_on_stream",
             "cache_c_refused_seeks_change_nothing_min"],
-    "C11": ["alloc_next_total", "chain_new_total", "mini_next_total"] + _WALK_Q,
+    "C11": ["alloc_next_total", "chain_new_total", "mini_next_total"] + _WALK_Q +
+           ["c11_incons_eoc100_write0", "c11_incons_eoc100_resize50", "c11_incons_short300_write_beyond", "c11_incons_reg_in_mini_resize0",
+            "c11_resize_u64max", "c11_write_data_overflow", "c11_write_total"],
     "C12": ["stor_read_fault_seek0", "stor_read_fault_seek1", "stor_read_fault_read0", "stor_read_cross"] + [n for n in seqs.quick_faults() if "c12" in n],
     "C13": ["c13_free_fault_at0", "c13_free_fault_at2", "c13_free_fault_at4", "cache_c_write_flush_write_read_min"] + [n for n in seqs.quick_faults() if "c13" in n],
     "C14": ["c14_lookups", "c14_iter_root", "c14_iter_walk", "c14_iter_storage", "c14_stream_rw", "c14_stream_setlen", "c14_stream_big_window"],
